@@ -666,6 +666,8 @@ func childMain() {
 
 func runPlatform(a Actor, srv *service.GoJT808, r *rec, bars *barriers) {
 	var calls sync.WaitGroup
+	var reuseMu sync.Mutex
+	reused := map[string]*service.ActiveMessage{}
 	maxWait := 0
 	for _, s := range a.Steps {
 		switch s.Op {
@@ -679,6 +681,16 @@ func runPlatform(a Actor, srv *service.GoJT808, r *rec, bars *barriers) {
 				r.add(Event{Actor: a.Name, Kind: "call_start", Call: s.CallID, Key: s.Key, Cmd: s.Cmd})
 				t0 := time.Now()
 				am := service.NewActiveMessage(s.Key, consts.JT808CommandType(s.Cmd), s.Body, time.Duration(s.TimeoutMs)*time.Millisecond)
+				if s.ReuseMsg {
+					rk := fmt.Sprintf("%s/%04x", s.Key, s.Cmd)
+					reuseMu.Lock()
+					if old, ok := reused[rk]; ok {
+						am = old
+					} else {
+						reused[rk] = am
+					}
+					reuseMu.Unlock()
+				}
 				res := srv.SendActiveMessage(am)
 				ev := Event{Actor: a.Name, Kind: "call_result", Call: s.CallID, Key: s.Key, Cmd: s.Cmd, DurUs: time.Since(t0).Microseconds()}
 				if res != nil {
